@@ -22,7 +22,8 @@ theorem okEv.low {n names ev} (h : okEv n names ev) : lowEv n ev := by
 structure Inv (n : Nat) (tA : TDef) (names : List Name) (c : Cls) : Prop where
   atn : c.trans[n]? = some tA
   ok : ∀ t ∈ c.trans, ∀ ev ∈ t.events, okEv n names ev
-  tail : ∀ t ∈ c.trans.drop (n + 1), ∃ k idxs, t.events = [.real k (some idxs)]
+  tail : ∀ t ∈ c.trans.drop (n + 1), (∃ k idxs, t.events = [.real k (some idxs)]) ∧
+    ∃ s ∈ c.states, t.source = .st s.name
 
 theorem Inv.lt {n tA names c} (h : Inv n tA names c) : n < c.trans.length := by
   have := h.atn
@@ -69,10 +70,10 @@ theorem foldl_modify_all (P : TDef → Prop) (f : TDef → TDef) (hf : ∀ t, P 
     | none => simp [h] at hj
     | some t0 =>
       have h0 : P t0 := hl t0 (List.mem_of_getElem? h)
-      simp only [h, Option.map_some] at hj
+      simp only [h, Option.map_eq_map, Option.map_some, Option.some.injEq] at hj
       split at hj
-      · simp only [Option.some.injEq] at hj; exact hj ▸ hf t0 h0
-      · simp only [Option.some.injEq] at hj; exact hj ▸ h0
+      · exact hj ▸ hf t0 h0
+      · exact hj ▸ h0
 
 theorem foldl_modify_getElem? (f : TDef → TDef) (idxs : List Nat) (l : List TDef) (j : Nat)
     (hj : ∀ i ∈ idxs, i ≠ j) : (idxs.foldl (modifyAt f) l)[j]? = l[j]? := by
@@ -93,20 +94,22 @@ theorem foldl_modify_drop (f : TDef → TDef) (idxs : List Nat) (l : List TDef) 
 
 /-- what a run of `AnyState` expansions does to the store: appends entries that carry exactly `ev` -/
 theorem foldl_expandAny_trans (ev : EvRef) (sts : List SDecl) (idxs : List Nat) (c : Cls) :
-    ∃ extra, (idxs.foldl (expandAny ev sts) c).trans = c.trans ++ extra ∧ ∀ t ∈ extra, t.events = [ev] := by
+    ∃ extra, (idxs.foldl (expandAny ev sts) c).trans = c.trans ++ extra ∧
+      ∀ t ∈ extra, t.events = [ev] ∧ ∃ s ∈ sts, t.source = .st s.name := by
   induction idxs generalizing c with
   | nil => exact ⟨[], by simp, by simp⟩
   | cons i is ih =>
     simp only [List.foldl_cons]
-    have h1 : ∃ e1, (expandAny ev sts c i).trans = c.trans ++ e1 ∧ ∀ t ∈ e1, t.events = [ev] := by
+    have h1 : ∃ e1, (expandAny ev sts c i).trans = c.trans ++ e1 ∧
+        ∀ t ∈ e1, t.events = [ev] ∧ ∃ s ∈ sts, t.source = .st s.name := by
       unfold expandAny
       split
       · split
         · refine ⟨_, rfl, ?_⟩
           intro t ht
           simp only [List.mem_map] at ht
-          obtain ⟨s, _, rfl⟩ := ht
-          rfl
+          obtain ⟨s, hs, rfl⟩ := ht
+          exact ⟨rfl, s, (List.mem_filter.mp hs).1, rfl⟩
         · exact ⟨[], by simp, by simp⟩
       · exact ⟨[], by simp, by simp⟩
     obtain ⟨e1, h1a, h1b⟩ := h1
@@ -117,6 +120,24 @@ theorem foldl_expandAny_trans (ev : EvRef) (sts : List SDecl) (idxs : List Nat) 
     · exact h1b t h
     · exact h2b t h
 
+theorem expandAny_states (ev : EvRef) (sts : List SDecl) (c : Cls) (i : Nat) :
+    (expandAny ev sts c i).states = c.states := by
+  unfold expandAny
+  split
+  · split <;> rfl
+  · rfl
+
+theorem foldl_expandAny_states (ev : EvRef) (sts : List SDecl) (idxs : List Nat) (c : Cls) :
+    (idxs.foldl (expandAny ev sts) c).states = c.states := by
+  induction idxs generalizing c with
+  | nil => rfl
+  | cons i is ih => simp only [List.foldl_cons, ih, expandAny_states]
+
+theorem onEventDefined_states (c : Cls) (id : Name) (idxs : List Nat) :
+    (onEventDefined c id idxs).states = c.states := by
+  unfold onEventDefined
+  simp only [foldl_expandAny_states]
+
 theorem okEv_addEv {l : List EvRef} {e : EvRef} (hl : ∀ x ∈ l, okEv n names x) (he : okEv n names e) :
     ∀ x ∈ addEv l e, okEv n names x := by
   intro x hx
@@ -124,16 +145,19 @@ theorem okEv_addEv {l : List EvRef} {e : EvRef} (hl : ∀ x ∈ l, okEv n names 
   · exact hl x h
   · exact h ▸ he
 
+theorem onEventDefined_trans (c : Cls) (id : Name) (idxs : List Nat) :
+    ∃ extra, (onEventDefined c id idxs).trans =
+        idxs.foldl (modifyAt fun t => { t with events := addEv t.events (.real id (some idxs)) }) c.trans ++ extra ∧
+      ∀ t ∈ extra, t.events = [.real id (some idxs)] ∧ ∃ s ∈ c.states, t.source = .st s.name := by
+  unfold onEventDefined
+  exact foldl_expandAny_trans (.real id (some idxs)) c.states idxs _
+
 theorem Inv.onEventDefined {c : Cls} (h : Inv n tA names c) (id : Name) (idxs : List Nat)
     (hid : id ∈ names) (hi : ∀ i ∈ idxs, i < n) : Inv n tA names (onEventDefined c id idxs) := by
   have hev : okEv n names (.real id (some idxs)) := ⟨hid, hi⟩
-  unfold SMV.Decl.onEventDefined
-  obtain ⟨extra, he1, he2⟩ := foldl_expandAny_trans (.real id (some idxs)) c.states idxs
-    { c with trans := (idxs.foldl
-      (modifyAt fun t => { t with events := addEv t.events (.real id (some idxs)) }) c.trans) }
-  simp only at he1
+  obtain ⟨extra, he1, he2⟩ := onEventDefined_trans c id idxs
   have hlen := h.lt
-  constructor
+  refine ⟨?_, ?_, ?_⟩
   · rw [he1, List.getElem?_append_left (by simpa [foldl_modify_length] using hlen),
       foldl_modify_getElem? _ _ _ _ (fun i hi' => by have := hi i hi'; omega)]
     exact h.atn
@@ -143,15 +167,15 @@ theorem Inv.onEventDefined {c : Cls} (h : Inv n tA names c) (id : Name) (idxs : 
     · exact foldl_modify_all (fun t => ∀ ev ∈ t.events, okEv n names ev) _
         (fun t ht => okEv_addEv ht hev) idxs c.trans h.ok t h1
     · intro ev hev'
-      rw [he2 t h1] at hev'
+      rw [(he2 t h1).1] at hev'
       simp only [List.mem_singleton] at hev'
       exact hev' ▸ hev
   · rw [he1, List.drop_append_of_le_length (by simp [foldl_modify_length]; omega),
-      foldl_modify_drop _ _ _ _ (fun i hi' => by have := hi i hi'; omega)]
+      foldl_modify_drop _ _ _ _ (fun i hi' => by have := hi i hi'; omega), onEventDefined_states]
     intro t ht
     rcases List.mem_append.mp ht with h1 | h1
     · exact h.tail t h1
-    · exact ⟨id, idxs, he2 t h1⟩
+    · exact ⟨⟨id, idxs, (he2 t h1).1⟩, (he2 t h1).2⟩
 
 theorem Inv.addEvent {c : Cls} (h : Inv n tA names c) (ev : EvRef) (hev : okEv n names ev) :
     Inv n tA names (addEvent c ev) := by
@@ -187,8 +211,11 @@ theorem Inv.foldl_addEvent {c : Cls} (h : Inv n tA names c) (evs : List EvRef)
   | cons e es ih =>
     exact ih (h.addEvent e (hev e List.mem_cons_self)) (fun ev hm => hev ev (List.mem_cons_of_mem _ hm))
 
-theorem Inv.states {c : Cls} (h : Inv n tA names c) (sts : List SDecl) :
-    Inv n tA names { c with states := sts } := ⟨h.atn, h.ok, h.tail⟩
+theorem Inv.states {c : Cls} (h : Inv n tA names c) (s : SDecl) :
+    Inv n tA names { c with states := c.states ++ [s] } :=
+  ⟨h.atn, h.ok, fun t ht => ⟨(h.tail t ht).1, by
+    obtain ⟨s', hs', e⟩ := (h.tail t ht).2
+    exact ⟨s', List.mem_append_left _ hs', e⟩⟩⟩
 
 theorem Inv.outOf_ok {c : Cls} (h : Inv n tA names c) (s : Name) :
     ∀ ev ∈ uniqueEvents (outOf c s), okEv n names ev := by
@@ -198,7 +225,7 @@ theorem Inv.outOf_ok {c : Cls} (h : Inv n tA names c) (s : Name) :
 
 theorem Inv.addState {c : Cls} (h : Inv n tA names c) (s : SDecl) : Inv n tA names (addState c s) := by
   unfold SMV.Decl.addState
-  exact (h.states _).foldl_addEvent _ ((h.states (c.states ++ [s])).outOf_ok s.name)
+  exact (h.states s).foldl_addEvent _ ((h.states s).outOf_ok s.name)
 
 /-- an attribute of the class namespace that only mentions store positions below `n` and is named in `names` -/
 def okAttr (n : Nat) (names : List Name) : Name × AttrVal → Prop
@@ -214,7 +241,7 @@ theorem Inv.processAttr {c : Cls} (h : Inv n tA names c) (a : Name × AttrVal) (
   | state s => exact h.addState s
   | tl idxs => exact h.addEvent (.real k (some idxs)) ha
   | event tl =>
-    have hev : okEv n names (.real k (match tl with | some [] => none | x => x)) := by
+    have hev : okEv n names (.real k (normTl tl)) := by
       cases tl with
       | none => trivial
       | some idxs => cases idxs with
@@ -247,11 +274,11 @@ theorem outOf_spl_events {X : List TDef} {c : Cls} (hat : c.trans[n]? = some tA)
 theorem addState_spl {X : List TDef} {c : Cls} (h : Inv n tA names c) (hA : tA.source = .any)
     (hX : ∀ x ∈ X, x.events = []) (s : SDecl) :
     addState (spl n X c) s = spl n X (addState c s) := by
-  unfold SMV.Decl.addState
-  have h1 := h.states (c.states ++ [s])
-  have e1 : ({ spl n X c with states := (spl n X c).states ++ [s] } : Cls) =
-      spl n X { c with states := c.states ++ [s] } := rfl
-  rw [e1]
+  have h1 := h.states s
+  show List.foldl SMV.Decl.addEvent (spl n X { c with states := c.states ++ [s] })
+      (uniqueEvents (outOf (spl n X { c with states := c.states ++ [s] }) s.name)) =
+    spl n X (List.foldl SMV.Decl.addEvent { c with states := c.states ++ [s] }
+      (uniqueEvents (outOf { c with states := c.states ++ [s] } s.name)))
   have e2 : uniqueEvents (outOf (spl n X { c with states := c.states ++ [s] }) s.name) =
       uniqueEvents (outOf { c with states := c.states ++ [s] } s.name) := by
     unfold uniqueEvents
@@ -267,13 +294,13 @@ theorem processAttr_spl {X : List TDef} {c : Cls} (h : Inv n tA names c) (hA : t
   | state s => exact addState_spl h hA hX s
   | tl idxs => exact addEvent_spl c (.real k (some idxs)) ha.2 h.lt
   | event tl =>
-    have hev : lowEv n (.real k (match tl with | some [] => none | x => x)) := by
+    have hev : lowEv n (.real k (normTl tl)) := by
       cases tl with
       | none => trivial
       | some idxs => cases idxs with
         | nil => trivial
         | cons i is => exact ha.2
-    show ({ addEvent (spl n X c) _ with pending := _ } : Cls) = _
+    simp only [SMV.Decl.processAttr]
     rw [addEvent_spl c _ hev h.lt]
     rfl
 
